@@ -20,7 +20,7 @@ import (
 	"verif/harness/drv"
 )
 
-const keeperRule = "the pool math reaches users through the gamm keeper: on the real application (transaction semantics) one balancer pool (2-4 assets, a third of them weight-changing with the clock advancing) or stableswap pool (2-3 assets, generated scaling factors) and 1-8 messages (swap exact in / out, single-asset join by tokens / by shares, single-asset exit by shares / by tokens, proportional exit) with amounts from one unit to 90% of a reserve or of the share supply; oracle (differential): whenever the message succeeds, the same operation applied to the pool object loaded from the store just before it (the in-memory model whose value properties the other C04 checks decide; the keeper's single-asset exit by shares is the proportional exit followed by swaps of the other assets on the exited pool) must succeed with exactly the same amount, the stored pool afterwards must equal the model (reserves, shares, weights), the pool account must hold exactly the recorded reserves and the share supply must equal the recorded total; non-trivial = at least one single-asset join or exit succeeded; distinct by (pool, operations) hash"
+const keeperRule = "the pool math reaches users through the gamm keeper: on the real application (transaction semantics) one balancer pool (2-4 assets, a third of them weight-changing with the clock advancing) or stableswap pool (2-3 assets, generated scaling factors) and 1-8 messages (swap exact in / out, single-asset join by tokens / by shares, single-asset exit by shares / by tokens, proportional exit, all-asset join for exact shares - judged by the exact proportional bound minted x reserve <= paid x supply per asset) with amounts from one unit to 90% of a reserve or of the share supply; oracle (differential): whenever the message succeeds, the same operation applied to the pool object loaded from the store just before it (the in-memory model whose value properties the other C04 checks decide; the keeper's single-asset exit by shares is the proportional exit followed by swaps of the other assets on the exited pool) must succeed with exactly the same amount, the stored pool afterwards must equal the model (reserves, shares, weights), the pool account must hold exactly the recorded reserves and the share supply must equal the recorded total; non-trivial = at least one single-asset join or exit succeeded; distinct by (pool, operations) hash"
 
 func TestPropKeeperMatchesModel(t *testing.T) {
 	drv.Check(t, drv.Cfg{Name: "keeper-vs-model", Rule: keeperRule, Quick: 150, Thorough: 3000}, func(rt *rapid.T, cs *drv.Case) {
@@ -123,7 +123,7 @@ func TestPropKeeperMatchesModel(t *testing.T) {
 			var merr error
 			single := false
 			max := osmomath.NewIntFromBigInt(huge)
-			switch rapid.IntRange(0, 6).Draw(rt, "op") {
+			switch rapid.IntRange(0, 7).Draw(rt, "op") {
 			case 0:
 				in := sdk.NewCoin(a, frac(liq.AmountOf(a), "amt"))
 				what = fmt.Sprintf("swapExactIn %s->%s", in, b)
@@ -220,6 +220,29 @@ func TestPropKeeperMatchesModel(t *testing.T) {
 						rt.Fatalf("%s succeeded on a pool type without that kind of exit", what)
 					}
 					want, merr = ext.ExitSwapExactAmountOut(c.Ctx, out, shares)
+				}
+			case 7:
+				// all-asset join for an exact share amount: the statement's bound is exact - the shares minted are at most
+				// the proportional count for what was actually paid, asset by asset (minted x reserve_i <= paid_i x supply)
+				sh := frac(shares, "shares")
+				if rapid.Bool().Draw(rt, "raggedShares") {
+					sh = sh.AddRaw(rapid.Int64Range(1, 99).Draw(rt, "ragged")) // ratios that 18 decimals cannot hold
+				}
+				what = fmt.Sprintf("joinPool %s shares", sh)
+				bal0 := c.App.BankKeeper.GetAllBalances(c.Ctx, who)
+				res = c.Exec(&gammtypes.MsgJoinPool{Sender: who.String(), PoolId: id, ShareOutAmount: sh})
+				if res.OK() {
+					bal1 := c.App.BankKeeper.GetAllBalances(c.Ctx, who)
+					minted := bal1.AmountOf(shareDenom).Sub(bal0.AmountOf(shareDenom))
+					for _, co := range liq {
+						paid := bal0.AmountOf(co.Denom).Sub(bal1.AmountOf(co.Denom))
+						if minted.Mul(co.Amount).GT(paid.Mul(shares)) {
+							rt.Fatalf("%s minted %s of %s shares for %s of %s%s: more than the proportional share count [history %v]", what, minted, shares, paid, co.Amount, co.Denom, hist)
+						}
+					}
+					// stored pool vs bank is judged below; the model is the stored pool itself for this operation
+					model = load()
+					got, want = osmomath.ZeroInt(), osmomath.ZeroInt()
 				}
 			default:
 				sh := frac(shares, "shares")
